@@ -443,7 +443,7 @@ func (g *G) stringTemplate(id int, n func(string) string) *lang.Node {
 				lang.Define(dst, lang.Call(lang.Ident("bytes"), lang.Ident(src), lang.Call(lang.Ident("bytes"), lang.Int(1)))))
 		}
 	}
-	switch g.weighted("strTpl", 6, 4, 4, 3, 3, 3, 3) {
+	switch g.weighted("strTpl", 6, 4, 4, 3, 3, 3, 3, 4) {
 	case 0:
 		g.feat("tpl:string-growth-loop")
 		s, i := n("s"), n("i")
@@ -499,6 +499,25 @@ func (g *G) stringTemplate(id int, n func(string) string) *lang.Node {
 			a = lang.Str([]string{"ab", "", "12345678"}[g.draw(3, "fmtWS")])
 		}
 		return lang.Define(s, lang.Call(lang.Ident("format"), lang.Str(fmtSprintf(f, w)), a))
+	case 7:
+		// verbs that expand a string / bytes operand: the result is 2, 3 or 5
+		// times as long as the operand (%x, % x, % #x), or longer by a
+		// constant (%q, %#x); the operand length is chosen so that the
+		// result lands around the configured maxima
+		g.feat("tpl:format-expanding-verb")
+		s := n("fx")
+		if g.o.NoFormat || !g.builtinFree("format") || !g.builtinFree("bytes") {
+			return g.defineStmt()
+		}
+		verb := []string{"%x", "%X", "% x", "% X", "%#x", "% #x", "%# X", "%q", "%+q", "%#q", "%v", "%5x|", "% #12x", "%-#9X|"}[g.draw(14, "fxVerb")]
+		ls := []int{0, 1, 2, 5, 6, 7, 10, 11, 12, 13, 14, 15, 16, 17, 19, 20, 21, 22, 29, 30, 31, 32, 33, 34, 49, 50, 51, 62, 63, 64, 65, 98, 99, 100, 101, 199, 200, 201, 332, 333, 334, 499, 500, 501}
+		k := ls[g.draw(len(ls), "fxLen")]
+		g.declare(&vinfo{name: s, t: TStr})
+		var a *lang.Node = lang.Str(strings.Repeat("k", k))
+		if g.chance(400, "fxBytes") {
+			a = lang.Call(lang.Ident("bytes"), a)
+		}
+		return lang.Define(s, lang.Call(lang.Ident("format"), lang.Str(verb), a))
 	case 5:
 		g.feat("tpl:bytes-n")
 		b := n("bn")
